@@ -87,6 +87,16 @@ def run_verus_robust(path, asm, unit, seed, rlimit=30, solver=None, threads=None
     `gave up` must not be reported while a bigger budget decides. Every retry is recorded."""
     run = run_verus(path, seed, rlimit, solver, threads)
     f, te, rl = classify(asm, run, unit)
+    # a verifier process that died without a verdict (killed under memory pressure, no JSON result) says
+    # nothing about the code: run it again, alone, before giving up
+    tries = 0
+    while tries < 2 and not (run['json'].get('verification-results')) and not any(d.get('level') == 'error' for d in run['diags']):
+        tries += 1
+        time.sleep(5 * tries)
+        run = run_verus(path, seed, rlimit, solver, threads)
+        f, te, rl = classify(asm, run, unit)
+        if retries is not None:
+            retries.append({'file': os.path.basename(path), 'seed': seed, 'rlimit': rlimit, 'reason': 'no verdict from the verifier process (rc %s), run again' % run['rc']})
     if rl and not te:
         for (sd, lim) in ((seed, rlimit * 4), (seed + 7, rlimit * 4)):
             run2 = run_verus(path, sd, lim, solver, threads)
